@@ -1250,6 +1250,11 @@ where
                 .unwrap_or_else(|e| e.into_inner())
                 .take()
                 .expect("iterator present");
+            if std::env::var_os("ORXSIM_PHASE_MARK").is_some() {
+                // read by the parent when this process dies (line-buffered stdout)
+                let _p = alloc::pause();
+                println!("PHASE terminal");
+            }
             let invoke = sim::call_begin();
             let r = {
                 let _t = alloc::track();
